@@ -129,6 +129,10 @@ func lzRead(chunks [][]byte, crc bool, sizes []int, maxReads int) (res lzReadRes
 		}
 		res.Close = errName(r.Close())
 		sb.WriteString("close:" + res.Close)
+		// the verdict is a function of what was read: asking again gives the same answer
+		if again := errName(r.Close()); again != res.Close {
+			res.Close += "|second-Close:" + again
+		}
 		res.Trace = sb.String()
 		res.Consumed = src.read
 	})
@@ -557,7 +561,7 @@ func runC07(ctx *Ctx) error {
 
 func runC08(ctx *Ctx) error {
 	r, res := ctx.Rng, ctx.Res
-	res.Rule = "streams: random bytes; every truncation and every single-bit flip of small valid streams; header edits (negative, zero, too small, too large sizes, damaged CRC); splices of two valid streams; valid streams with appended bytes; valid streams closed after ONE Read of every length below the size (the cut inside a match). Each is read with a random buffer-size sequence under a watchdog and a read-count bound. Compared with the model: constructor result, every Read result and status, Close. Oracles: terminates, no panic, never more bytes than the declared size, and Close nil only if the independent canonical codec decodes the consumed stream to exactly the bytes read (CRC and size included). Non-trivial: stream that is not a valid library stream; distinct by stream."
+	res.Rule = "streams: random bytes; every truncation and every single-bit flip of small valid streams; header edits (negative, zero, too small, too large sizes, damaged CRC); splices of two valid streams; valid streams with appended bytes; valid streams closed after ONE Read of every length below the size (the cut inside a match). Each is read with a random buffer-size sequence under a watchdog and a read-count bound. Compared with the model: constructor result, every Read result and status, Close. Oracles: terminates, no panic, never more bytes than the declared size, and Close nil only if the independent canonical codec decodes the consumed stream to exactly the bytes read (CRC and size included), and a second Close gives the same verdict as the first. Non-trivial: stream that is not a valid library stream; distinct by stream."
 	var streams [][]byte
 	var fam []string
 	var crcs []bool
@@ -699,6 +703,9 @@ func runC08(ctx *Ctx) error {
 			res.Fail(Failure{Kind: "oracle", Site: "reader-hang-or-panic", Case: cs, Detail: fmt.Sprint("hang=", rr.Hang, " panic=", rr.Panic)})
 			continue
 		}
+		if strings.Contains(rr.Close, "|second-Close:") {
+			res.Fail(Failure{Kind: "oracle", Site: "close-verdict-changes", Case: cs, Detail: rr.Close})
+		}
 		if rr.Close == "nil" {
 			res.Fail(Failure{Kind: "oracle", Site: "close-nil-after-partial-read", Case: cs, Detail: fmt.Sprintf("Close returned nil after %d bytes of a longer stream", len(rr.Out))})
 		}
@@ -759,6 +766,9 @@ func runC08(ctx *Ctx) error {
 			}
 			if int64(len(rr.Out)) > lim {
 				res.Fail(Failure{Kind: "oracle", Site: "more-bytes-than-declared", Case: cs, Detail: fmt.Sprintf("%d > %d", len(rr.Out), lim)})
+			}
+			if strings.Contains(rr.Close, "|second-Close:") {
+				res.Fail(Failure{Kind: "oracle", Site: "close-verdict-changes", Case: cs, Detail: rr.Close})
 			}
 			if rr.Close == "nil" {
 				verdicts = append(verdicts, vd{i, crc, rr.Out, cs})
